@@ -30,6 +30,7 @@ var fuzzTargets = []*fuzzTarget{
 	{"FuzzLdiffRemote", "ldiff"},
 	{"FuzzSpacePayload", "space"},
 	{"FuzzSnappy", "snappy"},
+	{"FuzzHandshake", "handshake"},
 }
 
 // selector byte: low 5 bits entry-point variant, high 3 bits fixture variant
@@ -124,3 +125,4 @@ func FuzzHeadSync(f *testing.F)     { fuzzRun(f, fuzzTargets[6]) }
 func FuzzLdiffRemote(f *testing.F)  { fuzzRun(f, fuzzTargets[7]) }
 func FuzzSpacePayload(f *testing.F) { fuzzRun(f, fuzzTargets[8]) }
 func FuzzSnappy(f *testing.F)       { fuzzRun(f, fuzzTargets[9]) }
+func FuzzHandshake(f *testing.F)    { fuzzRun(f, fuzzTargets[10]) }
